@@ -313,6 +313,9 @@ def gen_universe(rng, n_roots=None, max_levels=3, rich=True, force_falsy=False):
         used = {f.name for f in inherited}
         own = []
         nf = rng.randint(0, 5 if rich else 2)
+        override_only = bool(inherited) and rng.random() < 0.25   # a subclass that only re-declares inherited fields
+        if override_only:
+            nf = 0
         seen_default = any(f.has_default and not f.kw_only for f in inherited)
         for _ in range(nf):
             free = [n for n in fname_pool if n not in used]
@@ -349,7 +352,7 @@ def gen_universe(rng, n_roots=None, max_levels=3, rich=True, force_falsy=False):
                 seen_default = True
             own.append(f)
         # override of an inherited property: same role/type, other flags (keeps position)
-        if inherited and rng.random() < 0.35:
+        if inherited and (override_only or rng.random() < 0.35):
             cand = [f for f in inherited if f.role == "Prop" and f.init]
             if cand:
                 g = rng.choice(cand)
